@@ -83,6 +83,12 @@ class FaultSchedule(Entity):
         for fault, handle in zip(self._faults, self._handles, strict=False):
             fault_events = fault.generate_events(ctx)
             handle._events = fault_events
+            handle._fired = set()
+            for event in fault_events:
+                # remember which fault events the run has processed (see reset())
+                event.add_completion_hook(
+                    lambda _time, fired=handle._fired, key=id(event): fired.add(key)
+                )
             if handle.cancelled:
                 # Cancelled before the schedule was started: the handle had no
                 # events to mark at that point, so mark them now.
@@ -111,6 +117,44 @@ class FaultSchedule(Entity):
             len(all_events),
         )
         return all_events
+
+    def reset(self, start_time: Instant, sim: Simulation) -> list[Event]:
+        """Bring the faults back to the state before the first run.
+
+        Called by ``SimulationControl.reset()``. A run that stopped inside a
+        fault window leaves the window's effect in place (crash flag, partition,
+        extra latency / loss, reduced capacity); its closing event is on the
+        discarded heap and would never fire. So every window that was opened
+        and not closed is closed now, crash flags set by faults are cleared,
+        cancellations made by the model during the run are undone (handles
+        cancelled from outside stay cancelled), and the fault events are
+        generated afresh.
+
+        Returns:
+            All fault events to push onto the new heap.
+        """
+        for handle in self._handles:
+            events = handle._events
+            # Windowed faults return [opening event, ..., closing event].
+            if len(events) >= 2:
+                opened = id(events[0]) in handle._fired
+                closed = id(events[-1]) in handle._fired
+                if opened and not closed:
+                    closing = events[-1]
+                    closing.target.handle_event(closing)
+            if handle._cancelled_in_run:
+                handle._cancelled = False
+                handle._cancelled_in_run = False
+
+        # A crash without restart_at has no closing event; the depth counter is
+        # only ever set by CrashNode / PauseNode.
+        all_components = list(sim._entities) + list(sim._sources) + list(sim._probes)
+        for component in all_components:
+            if hasattr(component, "_crash_depth"):
+                component._crash_depth = 0
+                component._crashed = False
+
+        return self.start(start_time, sim)
 
     @property
     def stats(self) -> FaultStats:
